@@ -23,6 +23,8 @@ use dashu_int::{fast_div::ConstDivisor, IBig, UBig, Word};
 use dashu_ratio::{RBig, Relaxed};
 use std::str::FromStr;
 use verif_harness::util::*;
+use verif_harness::{forms_bin4, forms_bin6, forms_meth4};
+use verif_harness::forms::{merge, run1};
 
 fn p_str(s: &str) -> Result<String, String> {
     String::from_utf8(p_bytes(s)?).map_err(|_| format!("bad-arg utf8 {}", s))
@@ -135,38 +137,22 @@ fn int_op(op: &str, a: &[&str]) -> Option<Res> {
             "u.shl" => {
                 let x = p_ubig(arg(a, 0)?)?;
                 let n = p_usize(arg(a, 1)?)?;
-                let _ = &x << n;
-                let mut y = x.clone();
-                y <<= n;
-                let _ = x << n;
-                done()
+                return forms_shift(&x, n, true);
             }
             "i.shl" => {
                 let x = p_ibig(arg(a, 0)?)?;
                 let n = p_usize(arg(a, 1)?)?;
-                let _ = &x << n;
-                let mut y = x.clone();
-                y <<= n;
-                let _ = x << n;
-                done()
+                return forms_shift(&x, n, true);
             }
             "u.shr" => {
                 let x = p_ubig(arg(a, 0)?)?;
                 let n = p_usize(arg(a, 1)?)?;
-                let _ = &x >> n;
-                let mut y = x.clone();
-                y >>= n;
-                let _ = x >> n;
-                done()
+                return forms_shift(&x, n, false);
             }
             "i.shr" => {
                 let x = p_ibig(arg(a, 0)?)?;
                 let n = p_usize(arg(a, 1)?)?;
-                let _ = &x >> n;
-                let mut y = x.clone();
-                y >>= n;
-                let _ = x >> n;
-                done()
+                return forms_shift(&x, n, false);
             }
             // ---- powers, roots, logarithms
             "u.pow" => {
@@ -214,56 +200,61 @@ fn int_op(op: &str, a: &[&str]) -> Option<Res> {
             // ---- gcd
             "u.gcd" => {
                 let (x, y) = (p_ubig(arg(a, 0)?)?, p_ubig(arg(a, 1)?)?);
-                let _ = (&x).gcd(&y);
-                let _ = x.gcd(y);
-                done()
+                forms_meth4!(x, y, gcd, |_: &UBig| String::new())
             }
             "i.gcd" => {
                 let (x, y) = (p_ibig(arg(a, 0)?)?, p_ibig(arg(a, 1)?)?);
-                let _ = (&x).gcd(&y);
-                let _ = x.gcd(y);
-                done()
+                forms_meth4!(x, y, gcd, |_: &UBig| String::new())
             }
             "u.gcd_ext" => {
                 let (x, y) = (p_ubig(arg(a, 0)?)?, p_ubig(arg(a, 1)?)?);
-                let _ = (&x).gcd_ext(&y);
-                let _ = x.gcd_ext(y);
-                done()
+                forms_meth4!(x, y, gcd_ext, |_: &(UBig, IBig, IBig)| String::new())
             }
             "i.gcd_ext" => {
                 let (x, y) = (p_ibig(arg(a, 0)?)?, p_ibig(arg(a, 1)?)?);
-                let _ = (&x).gcd_ext(&y);
-                let _ = x.gcd_ext(y);
-                done()
+                forms_meth4!(x, y, gcd_ext, |_: &(UBig, IBig, IBig)| String::new())
             }
             // ---- guards of the basic arithmetic (the operator impls in all forms are C15's)
+            // every ownership / assign form of the operator must end the same way (`forms-disagree` otherwise)
             "u.sub" => {
-                let _ = p_ubig(arg(a, 0)?)? - p_ubig(arg(a, 1)?)?;
-                done()
+                let (x, y) = (p_ubig(arg(a, 0)?)?, p_ubig(arg(a, 1)?)?);
+                forms_bin6!(x, y, -, -=, |_: &UBig| String::new())
             }
             "u.div" | "u.rem" | "u.div_rem" | "u.div_euclid" | "u.rem_euclid" | "u.div_rem_euclid" => {
                 let (x, y) = (p_ubig(arg(a, 0)?)?, p_ubig(arg(a, 1)?)?);
                 match op {
-                    "u.div" => drop(x / y),
-                    "u.rem" => drop(x % y),
-                    "u.div_rem" => drop(x.div_rem(y)),
-                    "u.div_euclid" => drop(x.div_euclid(y)),
-                    "u.rem_euclid" => drop(x.rem_euclid(y)),
-                    _ => drop(x.div_rem_euclid(y)),
+                    "u.div" => forms_bin6!(x, y, /, /=, |_: &UBig| String::new()),
+                    "u.rem" => forms_bin6!(x, y, %, %=, |_: &UBig| String::new()),
+                    "u.div_rem" => {
+                        let r1 = forms_meth4!(x.clone(), y.clone(), div_rem, |_: &(UBig, UBig)| String::new());
+                        let r2 = merge(&["asv", "asr"], vec![
+                            run1(|| { let mut z = x.clone(); let _ = dashu_base::DivRemAssign::div_rem_assign(&mut z, y.clone()); String::new() }),
+                            run1(|| { let mut z = x.clone(); let _ = dashu_base::DivRemAssign::div_rem_assign(&mut z, &y); String::new() }),
+                        ]);
+                        if r1 == r2 { r1 } else { Err(format!("forms-disagree [meth: {:?}] [assign: {:?}]", r1, r2).replace(' ', "_")) }
+                    }
+                    "u.div_euclid" => forms_meth4!(x, y, div_euclid, |_: &UBig| String::new()),
+                    "u.rem_euclid" => forms_meth4!(x, y, rem_euclid, |_: &UBig| String::new()),
+                    _ => forms_meth4!(x, y, div_rem_euclid, |_: &(UBig, UBig)| String::new()),
                 }
-                done()
             }
             "i.div" | "i.rem" | "i.div_rem" | "i.div_euclid" | "i.rem_euclid" | "i.div_rem_euclid" => {
                 let (x, y) = (p_ibig(arg(a, 0)?)?, p_ibig(arg(a, 1)?)?);
                 match op {
-                    "i.div" => drop(x / y),
-                    "i.rem" => drop(x % y),
-                    "i.div_rem" => drop(x.div_rem(y)),
-                    "i.div_euclid" => drop(x.div_euclid(y)),
-                    "i.rem_euclid" => drop(x.rem_euclid(y)),
-                    _ => drop(x.div_rem_euclid(y)),
+                    "i.div" => forms_bin6!(x, y, /, /=, |_: &IBig| String::new()),
+                    "i.rem" => forms_bin6!(x, y, %, %=, |_: &IBig| String::new()),
+                    "i.div_rem" => {
+                        let r1 = forms_meth4!(x.clone(), y.clone(), div_rem, |_: &(IBig, IBig)| String::new());
+                        let r2 = merge(&["asv", "asr"], vec![
+                            run1(|| { let mut z = x.clone(); let _ = dashu_base::DivRemAssign::div_rem_assign(&mut z, y.clone()); String::new() }),
+                            run1(|| { let mut z = x.clone(); let _ = dashu_base::DivRemAssign::div_rem_assign(&mut z, &y); String::new() }),
+                        ]);
+                        if r1 == r2 { r1 } else { Err(format!("forms-disagree [meth: {:?}] [assign: {:?}]", r1, r2).replace(' ', "_")) }
+                    }
+                    "i.div_euclid" => forms_meth4!(x, y, div_euclid, |_: &IBig| String::new()),
+                    "i.rem_euclid" => forms_meth4!(x, y, rem_euclid, |_: &UBig| String::new()),
+                    _ => forms_meth4!(x, y, div_rem_euclid, |_: &(IBig, UBig)| String::new()),
                 }
-                done()
             }
             "u.is_multiple_of" => {
                 let _ = p_ubig(arg(a, 0)?)?.is_multiple_of(&p_ubig(arg(a, 1)?)?);
@@ -359,6 +350,39 @@ fn int_op(op: &str, a: &[&str]) -> Option<Res> {
                 let _ = (x.to_f32(), x.to_f64());
                 done()
             }
+            // which primitive conversions succeed: `y`/`n` for u8 u16 u32 u64 u128 usize i8 i16 i32 i64 i128 isize, then UBig
+            "u.try_prims" => {
+                let x = p_ubig(arg(a, 0)?)?;
+                let f = |b: bool| if b { 'y' } else { 'n' };
+                let v = [u8::try_from(&x).is_ok(), u16::try_from(&x).is_ok(), u32::try_from(&x).is_ok(), u64::try_from(&x).is_ok(),
+                    u128::try_from(&x).is_ok(), usize::try_from(&x).is_ok(), i8::try_from(&x).is_ok(), i16::try_from(&x).is_ok(),
+                    i32::try_from(&x).is_ok(), i64::try_from(&x).is_ok(), i128::try_from(&x).is_ok(), isize::try_from(&x).is_ok(), true];
+                let w = [u8::try_from(x.clone()).is_ok(), u16::try_from(x.clone()).is_ok(), u32::try_from(x.clone()).is_ok(),
+                    u64::try_from(x.clone()).is_ok(), u128::try_from(x.clone()).is_ok(), usize::try_from(x.clone()).is_ok(),
+                    i8::try_from(x.clone()).is_ok(), i16::try_from(x.clone()).is_ok(), i32::try_from(x.clone()).is_ok(),
+                    i64::try_from(x.clone()).is_ok(), i128::try_from(x.clone()).is_ok(), isize::try_from(x.clone()).is_ok(), true];
+                if v != w {
+                    return Err("forms-disagree try_from(&x)/try_from(x)".to_string());
+                }
+                Ok(v.iter().map(|b| f(*b)).collect())
+            }
+            "i.try_prims" => {
+                let x = p_ibig(arg(a, 0)?)?;
+                let f = |b: bool| if b { 'y' } else { 'n' };
+                let v = [u8::try_from(&x).is_ok(), u16::try_from(&x).is_ok(), u32::try_from(&x).is_ok(), u64::try_from(&x).is_ok(),
+                    u128::try_from(&x).is_ok(), usize::try_from(&x).is_ok(), i8::try_from(&x).is_ok(), i16::try_from(&x).is_ok(),
+                    i32::try_from(&x).is_ok(), i64::try_from(&x).is_ok(), i128::try_from(&x).is_ok(), isize::try_from(&x).is_ok(),
+                    UBig::try_from(x.clone()).is_ok()];
+                let w = [u8::try_from(x.clone()).is_ok(), u16::try_from(x.clone()).is_ok(), u32::try_from(x.clone()).is_ok(),
+                    u64::try_from(x.clone()).is_ok(), u128::try_from(x.clone()).is_ok(), usize::try_from(x.clone()).is_ok(),
+                    i8::try_from(x.clone()).is_ok(), i16::try_from(x.clone()).is_ok(), i32::try_from(x.clone()).is_ok(),
+                    i64::try_from(x.clone()).is_ok(), i128::try_from(x.clone()).is_ok(), isize::try_from(x.clone()).is_ok(),
+                    x.as_ubig().is_some()];
+                if v != w {
+                    return Err("forms-disagree try_from(&x)/try_from(x)".to_string());
+                }
+                Ok(v.iter().map(|b| f(*b)).collect())
+            }
             "u.try_from_f64" => resf(UBig::try_from(f64::from_bits(p_u64(arg(a, 0)?)?))),
             "i.try_from_f64" => resf(IBig::try_from(f64::from_bits(p_u64(arg(a, 0)?)?))),
             "u.try_from_f32" => resf(UBig::try_from(f32::from_bits(p_u32(arg(a, 0)?)?))),
@@ -435,6 +459,38 @@ fn int_op(op: &str, a: &[&str]) -> Option<Res> {
         Err(e) if e == "\u{0}" => None,
         other => Some(other),
     }
+}
+
+/// `<<` / `>>` by value, by reference, by `&usize`, and the assign forms
+fn forms_shift<T>(x: &T, n: usize, left: bool) -> Res
+where
+    T: Clone + std::ops::Shl<usize, Output = T> + std::ops::Shr<usize, Output = T>,
+    for<'a> &'a T: std::ops::Shl<usize, Output = T> + std::ops::Shr<usize, Output = T>,
+    for<'a> T: std::ops::Shl<&'a usize, Output = T> + std::ops::Shr<&'a usize, Output = T>,
+    for<'a, 'b> &'a T: std::ops::Shl<&'b usize, Output = T> + std::ops::Shr<&'b usize, Output = T>,
+    T: std::ops::ShlAssign<usize> + std::ops::ShrAssign<usize>,
+    for<'a> T: std::ops::ShlAssign<&'a usize> + std::ops::ShrAssign<&'a usize>,
+{
+    let rs = if left {
+        vec![
+            run1(|| { let _ = x.clone() << n; String::new() }),
+            run1(|| { let _ = x << n; String::new() }),
+            run1(|| { let _ = x.clone() << &n; String::new() }),
+            run1(|| { let _ = x << &n; String::new() }),
+            run1(|| { let mut y = x.clone(); y <<= n; String::new() }),
+            run1(|| { let mut y = x.clone(); y <<= &n; String::new() }),
+        ]
+    } else {
+        vec![
+            run1(|| { let _ = x.clone() >> n; String::new() }),
+            run1(|| { let _ = x >> n; String::new() }),
+            run1(|| { let _ = x.clone() >> &n; String::new() }),
+            run1(|| { let _ = x >> &n; String::new() }),
+            run1(|| { let mut y = x.clone(); y >>= n; String::new() }),
+            run1(|| { let mut y = x.clone(); y >>= &n; String::new() }),
+        ]
+    };
+    merge(&["v", "r", "v&", "r&", "as", "as&"], rs)
 }
 
 fn mod_bin<'a>(f: &str, x: dashu_int::modular::Reduced<'a>, y: dashu_int::modular::Reduced<'a>) -> Res {
